@@ -136,7 +136,8 @@ class RewriterConfig : public DefaultRewriterConfig {
 public:
     RewriterConfig(ArithLogic & logic, Pred && pred) : logic(logic), pred(std::move(pred)) {}
 
-    bool previsit(PTRef term) override { return logic.hasSortBool(term) and not logic.isIte(term); }
+    // Arithmetic equalities also occur below non-Boolean terms, as arguments of uninterpreted functions
+    bool previsit(PTRef term) override { return not logic.isIte(term); }
 
     PTRef rewrite(PTRef term) override {
         if (logic.isNumEq(term) and pred(term)) {
